@@ -27,6 +27,8 @@ type backend struct {
 	panics      int // panics injected so far
 	errKinds    bool // draw error *values* of many kinds (linux / syscall errno, os.Err*, wrapped, opaque)
 	dirRoot     bool        // the root is always a directory
+	fs          *memfs      // if set: outcomes of the tree operations come from this file system (K5)
+	presetQIDs  []p9.QID    // fs mode: the QIDs the next call hands out
 	forceKind   p9.FileMode // if non-zero: mode of the next file created by a named walk
 	lastNew     int         // id of the handle created last
 	fullReads   bool // ReadAt always fills the buffer (C13 boundary runs)
@@ -50,6 +52,8 @@ type sfile struct {
 	p9.DefaultWalkGetAttr
 	b  *backend
 	id int
+	// obj: fs mode, set by Open / Create: an opened File keeps its object
+	obj *mnode
 	// path is the absolute path of the file as this handle knows it: set when the handle is
 	// created, rewritten by Renamed (the way localfs does). Used only to refuse what every
 	// POSIX file system refuses (rename into the own subtree / onto an ancestor).
@@ -192,6 +196,11 @@ func (b *backend) okTape(ints []uint64, strs [][]byte, rows [][]string) {
 // ---- value generators ----------------------------------------------------------------
 
 func (b *backend) randQID() p9.QID {
+	if len(b.presetQIDs) > 0 {
+		q := b.presetQIDs[0]
+		b.presetQIDs = b.presetQIDs[1:]
+		return q
+	}
 	return p9.QID{Type: p9.QIDType(b.r.bits(8)), Version: uint32(b.r.bits(32)), Path: b.r.bits(64)}
 }
 func qidInts(q p9.QID) []uint64 { return []uint64{uint64(q.Type), uint64(q.Version), q.Path} }
@@ -252,7 +261,30 @@ func namesBytes(names []string) [][]byte {
 
 func (f *sfile) walkCommon(meth string, names []string, withAttr bool) ([]p9.QID, p9.File, p9.AttrMask, p9.Attr, error) {
 	b := f.b
-	o := b.record(f.id, meth, nil, namesBytes(names))
+	var forced []linux.Errno
+	if b.fs != nil {
+		b.mu.Lock()
+		cur := append([]string{}, f.path...)
+		var qs []p9.QID
+		var last *mnode
+		for _, nm := range names {
+			cur = append(cur, nm)
+			last = b.fs.resolve(cur)
+			if last == nil {
+				break
+			}
+			qs = append(qs, last.qid())
+		}
+		switch {
+		case len(names) > 0 && last == nil:
+			forced = []linux.Errno{linux.ENOENT}
+		case len(names) > 0:
+			b.presetQIDs = qs
+			b.forceKind = last.mode
+		}
+		b.mu.Unlock()
+	}
+	o := b.record(f.id, meth, nil, namesBytes(names), forced...)
 	if o.err != nil {
 		return nil, nil, p9.AttrMask{}, p9.Attr{}, o.err
 	}
@@ -260,6 +292,10 @@ func (f *sfile) walkCommon(meth string, names []string, withAttr bool) ([]p9.QID
 	if meth == "WalkGetAttr" && b.r.chance(1, 2) {
 		// like DefaultWalkGetAttr: not implemented, the server falls back to Walk + GetAttr
 		b.tape = append(b.tape, fmt.Sprintf("err:%d", uint32(linux.ENOSYS)))
+		b.presetQIDs = nil
+		if b.fs != nil {
+			b.forceKind = 0
+		}
 		b.mu.Unlock()
 		return nil, nil, p9.AttrMask{}, p9.Attr{}, linux.ENOSYS
 	}
@@ -279,6 +315,9 @@ func (f *sfile) walkCommon(meth string, names []string, withAttr bool) ([]p9.QID
 		mode = b.randKind()
 		if b.forceKind != 0 {
 			mode = b.forceKind
+			if b.fs != nil {
+				b.forceKind = 0
+			}
 		}
 	}
 	nf := b.newFileLocked(mode, append(append([]string{}, f.path...), names...)...)
@@ -315,7 +354,21 @@ func (f *sfile) WalkGetAttr(names []string) ([]p9.QID, p9.File, p9.AttrMask, p9.
 
 func (f *sfile) GetAttr(req p9.AttrMask) (p9.QID, p9.AttrMask, p9.Attr, error) {
 	b := f.b
-	o := b.record(f.id, "GetAttr", []uint64{maskToInt(req)}, nil)
+	var forced []linux.Errno
+	if b.fs != nil {
+		b.mu.Lock()
+		n := f.obj
+		if n == nil {
+			n = b.fs.resolve(f.path)
+		}
+		if n == nil {
+			forced = []linux.Errno{linux.ENOENT}
+		} else {
+			b.presetQIDs = []p9.QID{n.qid()}
+		}
+		b.mu.Unlock()
+	}
+	o := b.record(f.id, "GetAttr", []uint64{maskToInt(req)}, nil, forced...)
 	if o.err != nil {
 		return p9.QID{}, p9.AttrMask{}, p9.Attr{}, o.err
 	}
@@ -398,7 +451,18 @@ func (f *sfile) Renamed(newDir p9.File, newName string) {
 
 func (f *sfile) Open(mode p9.OpenFlags) (p9.QID, uint32, error) {
 	b := f.b
-	o := b.record(f.id, "Open", []uint64{uint64(mode)}, nil)
+	var forced []linux.Errno
+	if b.fs != nil {
+		b.mu.Lock()
+		if n := b.fs.resolve(f.path); n == nil {
+			forced = []linux.Errno{linux.ENOENT}
+		} else {
+			f.obj = n
+			b.presetQIDs = []p9.QID{n.qid()}
+		}
+		b.mu.Unlock()
+	}
+	o := b.record(f.id, "Open", []uint64{uint64(mode)}, nil, forced...)
 	if o.err != nil {
 		return p9.QID{}, 0, o.err
 	}
@@ -428,6 +492,18 @@ func (f *sfile) ReadAt(p []byte, offset int64) (int, error) {
 	}
 	data := b.r.bytesN(n)
 	eof := b.r.chance(1, 6)
+	if b.fs != nil && f.obj != nil && !f.obj.isDir() {
+		data = f.obj.content()
+		if offset < int64(len(data)) {
+			data = data[offset:]
+		} else {
+			data = nil
+		}
+		if len(data) > len(p) {
+			data = data[:len(p)]
+		}
+		n, eof = len(data), false
+	}
 	b.mu.Unlock()
 	copy(p, data)
 	b.okTape(nil, [][]byte{data}, nil)
@@ -510,12 +586,26 @@ func (f *sfile) Lock(pid int, locktype p9.LockType, flags p9.LockFlags, start, l
 
 func (f *sfile) Create(name string, flags p9.OpenFlags, permissions p9.FileMode, uid p9.UID, gid p9.GID) (p9.File, p9.QID, uint32, error) {
 	b := f.b
-	o := b.record(f.id, "Create", []uint64{uint64(flags), uint64(permissions), uint64(uid), uint64(gid)}, [][]byte{[]byte(name)})
+	var forced []linux.Errno
+	var obj *mnode
+	if b.fs != nil {
+		b.mu.Lock()
+		n, e := b.fs.create(f.path, name, p9.ModeRegular|0644)
+		if e != 0 {
+			forced = []linux.Errno{e}
+		} else {
+			obj = n
+			b.presetQIDs = []p9.QID{n.qid()}
+		}
+		b.mu.Unlock()
+	}
+	o := b.record(f.id, "Create", []uint64{uint64(flags), uint64(permissions), uint64(uid), uint64(gid)}, [][]byte{[]byte(name)}, forced...)
 	if o.err != nil {
 		return nil, p9.QID{}, 0, o.err
 	}
 	b.mu.Lock()
 	nf := b.newFileLocked(p9.ModeRegular|0644, append(append([]string{}, f.path...), name)...)
+	nf.obj = obj
 	q := b.randQID()
 	io := uint32(b.r.bits(32))
 	b.mu.Unlock()
@@ -523,9 +613,20 @@ func (f *sfile) Create(name string, flags p9.OpenFlags, permissions p9.FileMode,
 	return nf, q, io, nil
 }
 
-func (f *sfile) qidOp(meth string, ints []uint64, strs [][]byte) (p9.QID, error) {
+func (f *sfile) qidOp(meth string, ints []uint64, strs [][]byte, name string, mode p9.FileMode) (p9.QID, error) {
 	b := f.b
-	o := b.record(f.id, meth, ints, strs)
+	var forced []linux.Errno
+	if b.fs != nil {
+		b.mu.Lock()
+		n, e := b.fs.create(f.path, name, mode)
+		if e != 0 {
+			forced = []linux.Errno{e}
+		} else {
+			b.presetQIDs = []p9.QID{n.qid()}
+		}
+		b.mu.Unlock()
+	}
+	o := b.record(f.id, meth, ints, strs, forced...)
 	if o.err != nil {
 		return p9.QID{}, o.err
 	}
@@ -537,19 +638,23 @@ func (f *sfile) qidOp(meth string, ints []uint64, strs [][]byte) (p9.QID, error)
 }
 
 func (f *sfile) Mkdir(name string, permissions p9.FileMode, uid p9.UID, gid p9.GID) (p9.QID, error) {
-	return f.qidOp("Mkdir", []uint64{uint64(permissions), uint64(uid), uint64(gid)}, [][]byte{[]byte(name)})
+	return f.qidOp("Mkdir", []uint64{uint64(permissions), uint64(uid), uint64(gid)}, [][]byte{[]byte(name)}, name, p9.ModeDirectory|0755)
 }
 
 func (f *sfile) Symlink(oldName string, newName string, uid p9.UID, gid p9.GID) (p9.QID, error) {
-	return f.qidOp("Symlink", []uint64{uint64(uid), uint64(gid)}, [][]byte{[]byte(oldName), []byte(newName)})
+	return f.qidOp("Symlink", []uint64{uint64(uid), uint64(gid)}, [][]byte{[]byte(oldName), []byte(newName)}, newName, p9.ModeSymlink|0777)
 }
 
 func (f *sfile) Link(target p9.File, newName string) error {
-	return f.simple("Link", []uint64{uint64(target.(*sfile).id)}, [][]byte{[]byte(newName)})
+	var forced []linux.Errno
+	if f.b.fs != nil {
+		forced = []linux.Errno{linux.EPERM} // no hard links in the K5 file system
+	}
+	return f.simple("Link", []uint64{uint64(target.(*sfile).id)}, [][]byte{[]byte(newName)}, forced...)
 }
 
 func (f *sfile) Mknod(name string, mode p9.FileMode, major uint32, minor uint32, uid p9.UID, gid p9.GID) (p9.QID, error) {
-	return f.qidOp("Mknod", []uint64{uint64(mode), uint64(major), uint64(minor), uint64(uid), uint64(gid)}, [][]byte{[]byte(name)})
+	return f.qidOp("Mknod", []uint64{uint64(mode), uint64(major), uint64(minor), uint64(uid), uint64(gid)}, [][]byte{[]byte(name)}, name, p9.ModeRegular|0644)
 }
 
 func (f *sfile) Rename(newDir p9.File, newName string) error {
@@ -561,6 +666,15 @@ func (f *sfile) RenameAt(oldName string, newDir p9.File, newName string) error {
 	src := append(append([]string{}, f.path...), oldName)
 	dst := append(append([]string{}, newDir.(*sfile).path...), newName)
 	var forced []linux.Errno
+	if f.b.fs != nil {
+		f.b.mu.Lock()
+		e := f.b.fs.rename(f.path, oldName, newDir.(*sfile).path, newName)
+		f.b.mu.Unlock()
+		if e != 0 {
+			forced = []linux.Errno{e}
+		}
+		return f.simple("RenameAt", []uint64{uint64(newDir.(*sfile).id)}, [][]byte{[]byte(oldName), []byte(newName)}, forced...)
+	}
 	switch {
 	case hasPrefix(newDir.(*sfile).path, src): // into its own subtree
 		forced = []linux.Errno{linux.EINVAL}
@@ -571,7 +685,16 @@ func (f *sfile) RenameAt(oldName string, newDir p9.File, newName string) error {
 }
 
 func (f *sfile) UnlinkAt(name string, flags uint32) error {
-	return f.simple("UnlinkAt", []uint64{uint64(flags)}, [][]byte{[]byte(name)})
+	var forced []linux.Errno
+	if f.b.fs != nil {
+		f.b.mu.Lock()
+		e := f.b.fs.unlink(f.path, name)
+		f.b.mu.Unlock()
+		if e != 0 {
+			forced = []linux.Errno{e}
+		}
+	}
+	return f.simple("UnlinkAt", []uint64{uint64(flags)}, [][]byte{[]byte(name)}, forced...)
 }
 
 func (f *sfile) Readdir(offset uint64, count uint32) (p9.Dirents, error) {
